@@ -1195,7 +1195,7 @@ META = {
              "are positive multiples of 16, the overview count is the larger per-axis halving count (least c with dim//2^c <= "
              "block), the image is padded to align_up(dim, 2^n) (padding < 2^n, far side only), there are n+1 levels and level "
              "k is exactly padded/2^k with no rounding; flat_tile_idx is a bijection planes x ny x nx -> [0,num_tiles) and "
-             "tidx/cog_tidx/the writer's order enumerate every tile once; for every observed stream enumerating each tile "
+             "tidx/cog_tidx/the writer's order enumerate every tile once, tidx in flat-index order (list equation); for every observed stream enumerating each tile "
              "once, in any order with any sizes, the 324/325 entries equal (header length + sum of earlier sizes, size), are "
              "in stream order, pairwise disjoint, gap-free, empty tiles get an empty range; composed with the C06 byte-stream "
              "statement (Section hypothesis) every entry addresses exactly its tile's bytes; in the writer's own order every "
